@@ -52,6 +52,10 @@ func (m *Machine) Step(t *rapid.T, failPct int) {
 			if len(m.liveRunners(true)) == 0 {
 				continue
 			}
+		case "cancelCompleting":
+			if c, _ := m.lastTaskJobs(false); len(c) == 0 {
+				continue
+			}
 		}
 		w[k] = v
 	}
@@ -68,6 +72,8 @@ func (m *Machine) Step(t *rapid.T, failPct int) {
 		m.ActHold(t)
 	case "release":
 		m.ActRelease(t)
+	case "cancelCompleting":
+		m.ActCancelWhileCompleting(t)
 	case "reload":
 		m.ActReload(t)
 	case "save":
@@ -124,12 +130,12 @@ func baseWeights() map[string]int {
 
 // C05: wait-list admission follows queue_limit and queue_strategy exactly.
 func TestC05(t *testing.T) {
-	cfg := &Cfg{Prop: "C05", MaxPipelines: 2, MaxTasks: 2, DelayPct: 35, ReplacePct: 40, CyclicPct: 0, ReservedPct: 0,
+	cfg := &Cfg{Prop: "C05", MaxPipelines: 2, MaxTasks: 2, DelayPct: 35, ReplacePct: 40, CyclicPct: 8, ReservedPct: 12,
 		LimitChoices: []int{-1, 0, 1, 1, 2, 2, 3}, Weights: map[string]int{"schedule": 45, "cancel": 15, "finish": 22, "timer": 12, "hold": 2, "release": 4, "reload": 4},
 		ReloadKinds: []string{"limit", "limit", "strategy", "conc", "delay"},
 		Armed:       map[string]bool{"C05": true}}
 	runHistories(t, histOpts{cfg: cfg, failPct: 15,
-		rule: "stateful rapid histories (schedule/cancel/finish/timer/hold) over generated definitions (concurrency 1-3, queue_limit unset/0/1/2/3, append/replace, delay/no delay); every ScheduleAsync outcome compared with the decision table of the statement computed from the reported running/waiting jobs and the definition in force (a few reloads change queue_limit, strategy, concurrency or delay while jobs run and wait, so that the table is also entered from states the new definition could not have produced); non-trivial = a request decided while the pipeline had a running or waiting job and the history contains a cancel of a waiting job or a rejection or a replacement; distinct by action trace",
+		rule: "stateful rapid histories (schedule/cancel/finish/timer/hold) over generated definitions (concurrency 1-3, queue_limit unset/0/1/2/3, append/replace, delay/no delay; some requests carry the reserved variable or meet a cyclic graph, so that jobs which cannot be started sit in the queue and leave it canceled); every ScheduleAsync outcome compared with the decision table of the statement computed from the reported running/waiting jobs and the definition in force (a few reloads change queue_limit, strategy, concurrency or delay while jobs run and wait, so that the table is also entered from states the new definition could not have produced); non-trivial = a request decided while the pipeline had a running or waiting job and the history contains a cancel of a waiting job or a rejection or a replacement; distinct by action trace",
 		nontrivial: func(c map[string]int) bool {
 			return c["schedule-with-load"] > 0 && (c["cancel:waiting"] > 0 || c["schedule:reject"] > 0 || c["schedule:replace"] > 0)
 		}})
@@ -159,11 +165,11 @@ func TestC02(t *testing.T) {
 
 // C03: no accepted job is lost or stranded on the wait list.
 func TestC03(t *testing.T) {
-	cfg := &Cfg{Prop: "C03", MaxPipelines: 2, MaxTasks: 2, DelayPct: 50, ReplacePct: 25, CyclicPct: 10, ReservedPct: 15,
-		LimitChoices: []int{-1, -1, -1, 2, 3, 1}, Weights: map[string]int{"schedule": 36, "cancel": 16, "finish": 24, "timer": 14, "hold": 2, "release": 4, "reload": 5, "save": 2},
+	cfg := &Cfg{Prop: "C03", MaxPipelines: 2, MaxTasks: 2, DelayPct: 50, ReplacePct: 25, CyclicPct: 10, ReservedPct: 15, Retention: true,
+		LimitChoices: []int{-1, -1, -1, 2, 3, 1}, Weights: map[string]int{"schedule": 36, "cancel": 16, "finish": 24, "timer": 14, "hold": 2, "release": 4, "reload": 5, "save": 1, "saveRetention": 5},
 		Armed: map[string]bool{"C03": true}}
 	runHistories(t, histOpts{cfg: cfg, failPct: 15,
-		rule: "histories biased to cancels of waiting jobs (before/after their timer), unstartable heads (reserved variable, cyclic graph), replace and reloads with a non-empty queue; oracle: at every quiescent point under an unchanged definition free slot && head's delay expired => head started; after a drain (all holds released, timers fired, tasks finished) every accepted job of a still-defined pipeline started or is canceled; non-trivial = cancel of a waiting job with another behind it, or an unstartable job that waited, or a replacement, or a reload with waiting jobs; distinct by action trace",
+		rule: "histories biased to cancels of waiting jobs (before/after their timer), unstartable heads (reserved variable, cyclic graph), replace and reloads with a non-empty queue; pipelines carry retention settings and saves are interleaved (a save must never take away a job that still waits or runs); oracle: at every quiescent point under an unchanged definition free slot && head's delay expired => head started; after a drain (all holds released, timers fired, tasks finished) every accepted job of a still-defined pipeline started or is canceled; non-trivial = cancel of a waiting job with another behind it, or an unstartable job that waited, or a replacement, or a reload with waiting jobs; distinct by action trace",
 		nontrivial: func(c map[string]int) bool {
 			return c["cancel:waiting-with-job-behind"] > 0 || c["bad-waited"] > 0 || c["replaced"] > 0 || c["reload:with-waiting"] > 0
 		}})
@@ -172,10 +178,10 @@ func TestC03(t *testing.T) {
 // C04: an acknowledged cancel always takes effect and is never lost.
 func TestC04(t *testing.T) {
 	cfg := &Cfg{Prop: "C04", MaxPipelines: 2, MaxTasks: 4, DelayPct: 30, ReplacePct: 15, AllowFailPct: 25, ContinuePct: 30,
-		LimitChoices: []int{-1, -1, 2, 3}, Weights: map[string]int{"schedule": 26, "cancel": 22, "finish": 28, "timer": 8, "hold": 10, "release": 8, "shutdown": 2},
+		LimitChoices: []int{-1, -1, 2, 3}, Weights: map[string]int{"schedule": 26, "cancel": 22, "finish": 28, "timer": 8, "hold": 10, "release": 8, "shutdown": 2, "cancelCompleting": 5},
 		Armed: map[string]bool{"C04": true}}
 	runHistories(t, histOpts{cfg: cfg, failPct: 12,
-		rule: "histories with a high weight of hold/cancel so that cancels land on waiting jobs (with/without pending timer), running jobs with any subset of tasks finished, the gap between two tasks (hold -> finish -> cancel -> release), repeated cancels, finished/canceled/unknown ids, and cancels that arrive while a graceful shutdown is waiting for the running jobs; oracle: return value per state, no start after a waiting cancel, Cancel() delivered to the runner of a running job, final report canceled (never a plain success unless every task had succeeded before the ack), finished jobs unchanged; non-trivial = a cancel acknowledged for a running multi-task job while none of its tasks was executing, or for a job with pending delay; distinct by action trace",
+		rule: "histories with a high weight of hold/cancel so that cancels land on waiting jobs (with/without pending timer), running jobs with any subset of tasks finished, the gap between two tasks (hold -> finish -> cancel -> release), repeated cancels, finished/canceled/unknown ids, cancels that arrive while a graceful shutdown is waiting for the running jobs, and cancels that arrive while the job completes (last task done, runner held inside Finish; the request may be refused, but if it is acknowledged it counts); oracle: return value per state, no start after a waiting cancel, Cancel() delivered to the runner of a running job, final report canceled after every acknowledged cancel of an unfinished job (never a plain success), finished jobs unchanged; non-trivial = a cancel acknowledged for a running multi-task job while none of its tasks was executing, or for a job with pending delay; distinct by action trace",
 		nontrivial: func(c map[string]int) bool {
 			return c["cancel:in-gap"] > 0 || c["cancel:waiting-with-pending-timer"] > 0
 		}})
